@@ -50,6 +50,7 @@ package client
 //@   requires[C13.read_nonnil] rpc != nil
 //@   ensures[C01.at_most_one_delivery C05.at_most_one_delivery] ncalls("send") <= old(ncalls("send")) + 1
 //@   atcall[C05.deliver_to_owner C01.deliver_to_owner] send : tag(arg0) == rpc.Id && arg1 == rpc
+//@   ensures[C02.every_response_handed_over C01.every_response_handed_over C05.every_response_handed_over] atlock(rpc.Id in rm.handlers) ==> ncalls("send") == old(ncalls("send")) + 1
 
 //@ func client.(*RpcMultiplexer).closeError
 //@   nopanic[C13.nopanic C09.nopanic]
@@ -109,6 +110,7 @@ package client
 // read closure: only this stream's channel, closed channel => error
 //@ func client.(*RpcMultiplexer).NewStreamReadWriter$2
 //@   nopanic[C13.nopanic]
+//@   ctxaware[C07.stream_read_wakes_on_its_ctx C11.stream_read_wakes_on_its_ctx] ctx
 //@   requires ctx != nil
 //@   captures[C05.own_channel] isclass(respChan, "client.handlers")
 //@   ensures[C09.closed_channel_is_error C13.wellformed] (result.1 == nil) != (result.0 == nil)
@@ -133,7 +135,7 @@ package client
 //@ objinv[C13.objinv C02.objinv] client.clientStream : isclass(self.rCh, "client.rCh")
 
 //@ lock client.clientStream.protected.Mutex guards protected.done, protected.headerErr, protected.eErr, protected.rErr, protected.trailer
-//@   inv[C13.terminal_wellformed C02.terminal_wellformed C09.terminal_wellformed] self.protected.done ==> self.protected.rErr != nil
+//@   inv[C13.terminal_wellformed C02.terminal_wellformed C09.terminal_wellformed C03.terminal_wellformed C07.terminal_wellformed C20.terminal_wellformed] self.protected.done ==> self.protected.rErr != nil
 //@   inv[C13.closed_means_done] closed(self.rCh) ==> self.protected.done
 
 //@ func client.(*clientStream).readErrorIfDone
@@ -157,6 +159,7 @@ package client
 
 //@ func client.(*clientStream).SendMsg
 //@   nopanic[C13.nopanic]
+//@   atcall[C06.reset_only_from_read_loop C07.reset_only_from_read_loop] fnfield:H.client.clientStream.teardown : !arg0
 //@   atcall[C06.message_shape C02.message_shape C07.send_uses_stream_ctx] (types.RpcReadWriter).Write :
 //@     | arg2 != nil && arg2.Id == cs.id && arg2.Header != nil && arg2.Header.Method == cs.method && arg2.Header.Source == cs.sourceAddress && arg2.Header.Destination == cs.destAddress
 //@     | && arg2.Body != nil && arg2.Body.Data == bsContent(body) && arg2.Status == nil && arg2.Trailer == nil && arg2.Reset_ == nil && arg1 == cs.ctx
@@ -166,6 +169,7 @@ package client
 
 //@ func client.(*clientStream).RecvMsg
 //@   nopanic[C13.nopanic]
+//@   ctxaware[C07.receive_wakes_on_stream_ctx] cs.ctx
 //@   atcall[C02.received_body_decoded] (google.golang.org/grpc/encoding.CodecV2).Unmarshal : bound("body") && body != nil && bufContent(arg1[0]) == body.Data && arg2 == m
 //@   ensures[C13.success_only_with_data C02.success_only_with_data] result == nil ==> bound("ok") && ok && ncalls("(google.golang.org/grpc/encoding.CodecV2).Unmarshal") == old(ncalls("(google.golang.org/grpc/encoding.CodecV2).Unmarshal")) + 1
 //@   ensures[C09.closed_means_error] bound("ok") && !ok ==> result != nil
@@ -180,7 +184,9 @@ package client
 //@   ensures[C06.no_write_on_creation] ncalls("(types.RpcReadWriter).Write") == old(ncalls("(types.RpcReadWriter).Write"))
 //@   ensures[C14.one_reader C02.one_reader] ncalls("go:(*github.com/avos-io/goat/internal/client.clientStream).readLoop") == old(ncalls("go:(*github.com/avos-io/goat/internal/client.clientStream).readLoop")) + 1
 
-// teardown closure of a client stream: reset when asked, always unregister and cancel
+// teardown closure of a client stream: reset when asked, always unregister and cancel; it is the only
+// function the stream's teardown field ever holds
+//@ fnfield H.client.clientStream.teardown is client.NewStream$1
 //@ func client.NewStream$1
 //@   nopanic[C13.nopanic]
 //@   captures[C07.teardown_wellformed] rw != nil && teardown != nil && cancel != nil
@@ -193,11 +199,12 @@ package client
 //@ func client.(*clientStream).readLoop$1
 //@   inline
 //@   atcall[C07.reset_iff_cancelled_without_trailer C06.reset_iff_cancelled_without_trailer] fnfield:H.client.clientStream.teardown : arg0 == (trailer == nil && lastret("(context.Context).Err") != nil)
+//@   atcall[C02.own_cancel_inside_terminal_section C07.own_cancel_inside_terminal_section] fnfield:H.client.clientStream.teardown : held("client.clientStream.protected.Mutex")
 //@   atcall[C20.stream_end_reports_terminal_error] (google.golang.org/grpc/stats.Handler).HandleRPC : (arg2.Error != nil) == (rErr != nil && rErr != io.EOF) && (arg2.Error != nil ==> arg2.Error == rErr)
 
 //@ func client.(*clientStream).readLoop
 //@   nopanic[C13.nopanic]
-//@   ctxaware[C11.stream_reader_escapes C07.stream_reader_escapes]
+//@   ctxaware[C11.stream_reader_escapes C07.stream_reader_escapes] cs.ctx
 //@   owns cs.rCh
 //@   requires !closed(cs.rCh)
 //@   requires[C13.latch_armed] cs.header == nil && wg(cs.ready) == 1
